@@ -679,4 +679,70 @@ Section Pass.
       + destruct (Hf2 eq_refl) as (R1 & R2). destruct T2 as [D|[I2 _ _]]; [left; exact D|right].
         rewrite R1, R2 in I2. exact I2.
   Qed.
+
+  (** a completed pass has drained the buffer *)
+  Lemma pc_tick k m : pc (tick k m).1 = pc m.
+  Proof. unfold tick. destruct (get_fuse k m =? 0); [reflexivity|]. destruct k; reflexivity. Qed.
+  Lemma pc_trace_event o m : pc (trace_event K o m).1 = pc m.
+  Proof. unfold trace_event. destruct (is_map m o); [reflexivity|]. rewrite pc_tick. reflexivity. Qed.
+  Lemma pc_traced_children m o : pc (traced_children P m o).1 = pc m.
+  Proof. unfold traced_children. brk; reflexivity. Qed.
+  Lemma pc_visit_root s c : pc (t_m (visit_root s c)) = pc (t_m s).
+  Proof. unfold visit_root. brk; reflexivity. Qed.
+  Lemma pc_fold_visit_root l s : pc (t_m (fold_left visit_root l s)) = pc (t_m s).
+  Proof.
+    revert s. induction l as [|a l IH]; cbn; intros s; [reflexivity|].
+    rewrite IH. apply pc_visit_root.
+  Qed.
+  Lemma pc_unmark_all l m : pc (unmark_all l m) = pc m.
+  Proof. apply (fold_uhdr_proj (set_mark NM) l m). Qed.
+  Lemma pc_process_root s p : pc (t_m (process_root K P s p).1) = pc (t_m s).
+  Proof.
+    unfold process_root. pose proof (pc_trace_event p (t_m s)) as H1.
+    destruct (trace_event K p (t_m s)) as [m1 boom]. cbn [fst] in H1. destruct boom; cbn [fst t_m].
+    - rewrite pc_unmark_all. exact H1.
+    - pose proof (pc_traced_children m1 p) as H2.
+      destruct (traced_children P m1 p) as [m2 kids]. cbn [fst] in H2.
+      cbn [fst]. rewrite pc_fold_visit_root. cbn [t_m]. congruence.
+  Qed.
+  Lemma pc_roots n : forall s r, roots K P n s = Some r -> pc (t_m r.1) = pc (t_m s).
+  Proof.
+    induction n as [|n IH]; intros s r E; cbn in E; [discriminate|].
+    destruct (t_root s) as [|o rest].
+    - destruct (t_q s) as [|o q'].
+      + injection E as <-. reflexivity.
+      + match type of E with context [process_root K P ?s0 o] =>
+          pose proof (pc_process_root s0 o) as H2; destruct (process_root K P s0 o) as [s' boom] end.
+        cbn [fst t_m] in H2. destruct boom; [injection E as <-; exact H2|].
+        rewrite (IH _ _ E). exact H2.
+    - match type of E with context [process_root K P ?s0 o] =>
+        pose proof (pc_process_root s0 o) as H2; destruct (process_root K P s0 o) as [s' boom] end.
+      cbn [fst t_m] in H2. destruct boom; [injection E as <-; exact H2|].
+      rewrite (IH _ _ E). exact H2.
+  Qed.
+
+  Lemma counting_done_pc n : forall s r,
+    counting K P n s = Some r -> r.2 = false -> pc (t_m r.1) = [].
+  Proof.
+    induction n as [|n IH]; intros s r E Hb; cbn in E; [discriminate|].
+    destruct (pc (t_m s)) as [|o rest] eqn:Epc.
+    - destruct (t_q s) as [|o q'].
+      + injection E as <-. exact Epc.
+      + destruct (process_counting K P _ o) as [s' boom].
+        destruct boom; [injection E as <-; discriminate|]. eapply IH; eassumption.
+    - destruct (process_counting K P _ o) as [s' boom].
+      destruct boom; [injection E as <-; discriminate|]. eapply IH; eassumption.
+  Qed.
+
+  Theorem trace_pass_done_pc m L :
+    (trace_pass K P m).2 = PDone L -> pc (trace_pass K P m).1 = [].
+  Proof.
+    unfold trace_pass.
+    destruct (counting K P (pass_fuel m) (TState m [] [] [])) as [[s b]|] eqn:E1; [|discriminate].
+    destruct b; [discriminate|].
+    destruct (roots K P (pass_fuel m) s) as [[s' b']|] eqn:E2; [|discriminate].
+    destruct b'; [discriminate|]. cbn [fst snd]. intros _.
+    pose proof (pc_roots _ _ _ E2) as H2. cbn [fst] in H2. rewrite H2.
+    apply (counting_done_pc _ _ _ E1). reflexivity.
+  Qed.
 End Pass.
